@@ -620,7 +620,7 @@ func runC19Route(c *Ctx) {
 // to the first OPEN session, never to one of those.
 
 func runC19Waiting(c *Ctx) {
-	if !c.Want("wait-1") && !c.Want("wait-2") {
+	if c.Only != "" && !strings.HasPrefix(c.Only, "wait") {
 		return
 	}
 	coord := Boot()
@@ -693,6 +693,56 @@ func runC19Waiting(c *Ctx) {
 		}
 		c.Out.Tag(cid, "nontrivial=1")
 		c.Out.Count("waiting-request")
+		settle()
+	}
+	// a request that waits is routed like any other: connections to two coordinators come back during the wait,
+	// the request belongs to a transaction of the second (several rounds: the registry is a map)
+	for k := 1; k <= 8; k++ {
+		cid := fmt.Sprintf("waitx-%d", k)
+		if !c.Want(cid) {
+			continue
+		}
+		open0, _, counter0 := sgetty.VerifSessionBook()
+		a := &FakeSession{coord: coord, id: 7200 + 2*k, addr: "10.7.0.1:8091", attrs: map[interface{}]interface{}{}}
+		b := &FakeSession{coord: coord, id: 7201 + 2*k, addr: "10.7.0.2:8091", attrs: map[interface{}]interface{}{}}
+		done := make(chan struct{})
+		go func() {
+			defer close(done)
+			time.Sleep(150 * time.Millisecond)
+			if k%2 == 0 {
+				sgetty.VerifRegisterSilently(b)
+				sgetty.VerifRegisterSilently(a)
+			} else {
+				sgetty.VerifRegisterSilently(a)
+				sgetty.VerifRegisterSilently(b)
+			}
+		}()
+		var got getty.Session
+		xid := "10.7.0.2:8091:77"
+		crash := safeCall(func() {
+			got = sgetty.VerifSelect(message.RpcMessage{Body: message.GlobalCommitRequest{AbstractGlobalEndRequest: message.AbstractGlobalEndRequest{Xid: xid}}})
+		})
+		<-done
+		obs := "nil"
+		if fs, ok := got.(*FakeSession); ok && fs != nil {
+			obs = fmt.Sprint(fs.id)
+		}
+		c.Out.Case(cid, "C19", fmt.Sprintf("waitx XID %s - %d@%s@o,%d@%s@o", xid, a.id, a.addr, b.id, b.addr), obs)
+		switch {
+		case crash != "":
+			c.Out.Oracle(cid, false, "crash", crash)
+		case open0 != 0 || counter0 != 0:
+			c.Out.Oracle(cid, false, "setup", fmt.Sprintf("registry not empty before the case: open=%d counter=%d", open0, counter0))
+		case got != nil && got.RemoteAddr() != "10.7.0.2:8091":
+			c.Out.Oracle(cid, false, "waiting_request_not_routed_by_its_xid", fmt.Sprintf("the request of %s was handed the session to %s although the one to its coordinator was open", xid, got.RemoteAddr()))
+		default:
+			c.Out.Oracle(cid, true, "", "")
+		}
+		c.Out.Tag(cid, "nontrivial=1 member=1")
+		c.Out.Count("waiting-request.xid")
+		// both go away again (the registry is empty for the next round)
+		a.CloseFromPeer()
+		b.CloseFromPeer()
 		settle()
 	}
 	coord.OpenSession()
